@@ -23,7 +23,8 @@ JudgeHdrDec(e, tb) ==
   IN [ bad |-> V(e.cls # "panic", <<"C14">>, "Hdr.DecodeTotal")
             \cup V(e.cls # "panic" => okRun, <<"C14">>, "Hdr.DecodeMatchesSpec")
             \cup V(e.from = tb.hdrNext, <<"C14">>, "Hdr.TableContiguous"),
-       hits |-> H(TRUE, "Hdr.DecodeTotal") \cup H(TRUE, "Hdr.DecodeMatchesSpec") \cup H(e.cls = "none", "Hdr.PaddingRun"),
+       hits |-> H(TRUE, "Hdr.DecodeTotal") \cup H(TRUE, "Hdr.DecodeMatchesSpec") \cup H(e.cls = "none", "Hdr.PaddingRun")
+                \cup H(TRUE, "Hdr.TableContiguous"),
        tb |-> [tb EXCEPT !.hdrNext = e.to + 1],
        cls |-> <<"hdr_dec", e.cls, e.lt>>, weight |-> e.to - e.from + 1 ]
 
@@ -46,7 +47,8 @@ JudgeExtNew(e, tb) ==
             \cup V(e.res \notin {"panic"} => okRun, <<"C13">>, "ExtNew.OkIffContract")
             \cup V(e.res # "ok_but_differs", <<"C13">>, "ExtNew.EchoesIdAndData")
             \cup V(e.from = tb.extNext[e.dlen], <<"C13">>, "ExtNew.TableContiguous"),
-       hits |-> H(TRUE, "ExtNew.NoPanic") \cup H(TRUE, "ExtNew.OkIffContract") \cup H(e.res = "ok", "ExtNew.EchoesIdAndData"),
+       hits |-> H(TRUE, "ExtNew.NoPanic") \cup H(TRUE, "ExtNew.OkIffContract") \cup H(e.res = "ok", "ExtNew.EchoesIdAndData")
+                \cup H(TRUE, "ExtNew.TableContiguous"),
        tb |-> [tb EXCEPT !.extNext[e.dlen] = e.to + 1],
        cls |-> <<"ext_new", e.dlen, e.res>>, weight |-> e.to - e.from + 1 ]
 
@@ -88,7 +90,8 @@ JudgeUtilsRt(e) ==
                  \cup V(e.t \in {"ok", "opaque"} /\ Has(e, "tail_ok") => e.tail_ok, <<"C20">>, "Utils.GenerateWritesOnlyThePacket"),
             hits |-> H(TRUE, "Utils.NoPanic") \cup H(wf, "Utils.ParsesWellFormed") \cup H(wf /\ e.t = "ok", "Utils.ParseAgreesWithCodec")
                  \cup H(wf /\ e.t = "ok", "Utils.GenerateInvertsParse") \cup H(wf /\ e.t = "ok", "Utils.GenerateIsSerialize")
-                 \cup H(wf /\ e.src = "encap", "Utils.SameAsEncap"),
+                 \cup H(wf /\ e.src = "encap", "Utils.SameAsEncap")
+                 \cup H(e.t \in {"ok", "opaque"} /\ Has(e, "tail_ok"), "Utils.GenerateWritesOnlyThePacket"),
             cls |-> <<"utils_rt", e.src, h.kind, h.lt, SizeClass(Len(b))>> ])
 
 JudgeUtilsGen(e) ==
@@ -97,7 +100,8 @@ JudgeUtilsGen(e) ==
   IN [ bad |-> V(~e.panic, <<"C20">>, "Utils.GenNoPanic")
             \cup V(consistent => e.bytes = SerializePkt(PktOfDesc(d.kind, d)), <<"C20">>, "Utils.SyntheticGenerateIsSerialize")
             \cup V(~e.panic /\ Has(e, "tail_ok") => e.tail_ok, <<"C20">>, "Utils.GenerateWritesOnlyThePacket"),
-       hits |-> H(TRUE, "Utils.GenNoPanic") \cup H(consistent, "Utils.SyntheticGenerateIsSerialize"),
+       hits |-> H(TRUE, "Utils.GenNoPanic") \cup H(consistent, "Utils.SyntheticGenerateIsSerialize")
+                \cup H(~e.panic /\ Has(e, "tail_ok"), "Utils.GenerateWritesOnlyThePacket"),
        cls |-> <<"utils_gen", IF e.panic THEN "panic" ELSE d.kind, IF e.panic THEN "-" ELSE d.label.k, SizeClass(Len(e.bytes))>> ]
 
 \* ------------------------------------------------------------------- C17
